@@ -203,6 +203,39 @@ Section Agg.
   Qed.
 End Agg.
 
+Definition agg_ok (c : cfg) : Prop := forall v l,
+  Forall (fun t => msg_sig_ok c t = true /\ t_view t = v) l ->
+  NoDup (map t_id l) -> 2 <= length l -> qsize c <= length l ->
+  exists a, create_aggqc c v (map to_timeout l) = Ok a /\ aq_view a = v /\
+    forall c' st', c_scheme c' = c_scheme c -> c_replicas c' = c_replicas c ->
+      c_genesis c' <> zero_hash ->
+      (exists y, In y l /\ qc_valid c' st' (qc_of y) = true) ->
+      exists h, verify_aggqc c' st' a = Ok h /\ qc_valid c' st' h = true /\
+                exists y, In y l /\ h = qc_of y.
+
+(* the AggQC is created whatever the QCs are worth; its verification needs a valid one *)
+Lemma agg_ok_list c k : list_kind (c_scheme c) = Some k -> agg_ok c.
+Proof.
+  intros K v l Fm NDl L2 Lq.
+  assert (Sh : Forall (fun y => t_msig y = Some (QMulti k [sig1_of y]) /\ t_qc y = Some (qc_of y) /\
+                  s_claimed (sig1_of y) = t_id y) l).
+  { eapply Forall_impl; [|exact Fm]. simpl. intros y [M _].
+    destruct (msg_sig_shape c k y K M) as [A [B [C _]]]. auto. }
+  assert (Cl : map s_claimed (map sig1_of l) = map t_id l).
+  { rewrite map_map. apply map_ext_in. intros y Hy. rewrite Forall_forall in Sh. apply (Sh y Hy). }
+  unfold create_aggqc.
+  rewrite (to_sigs_map k l) by (eapply Forall_impl; [|exact Sh]; simpl; tauto).
+  rewrite (scheme_combine_singles _ k _ K) by (rewrite ?Cl, ?map_length; auto; lia).
+  eexists. split; [reflexivity|]. split; [reflexivity|].
+  intros c' st' Es Er Gz Ex.
+  destruct (aggqc_verifies c c' st' k v l K Es Er Gz Fm NDl L2 Lq Ex)
+    as [a' [h [Ca [_ R]]]].
+  unfold create_aggqc in Ca.
+  rewrite (to_sigs_map k l) in Ca by (eapply Forall_impl; [|exact Sh]; simpl; tauto).
+  rewrite (scheme_combine_singles _ k _ K) in Ca by (rewrite ?Cl, ?map_length; auto; lia).
+  inversion Ca. subst a'. exists h. exact R.
+Qed.
+
 Section FiredAgg.
   Variable c : cfg.
   Variable st : store.
@@ -213,9 +246,9 @@ Section FiredAgg.
 
   (* aggregate rule: firing yields a TC and an AggQC, both labelled with the messages' view,
      that verify everywhere; a replica in that view moves on *)
-  Lemma fired_aggregate k s hist t a1 l :
+  Lemma fired_aggregate s hist t a1 l :
     Inv c s hist -> (s_view s <= t_view t)%N ->
-    list_kind (c_scheme c) = Some k -> c_aggqc c = true -> 2 <= q ->
+    tc_ok c -> agg_ok c -> c_aggqc c = true -> 2 <= q ->
     handed (snd (step c st s (t, a1))) = Some l ->
     exists si a, snd (step c st s (t, a1)) = OFired l si /\ si_agg si = Some a /\
       tc_view (si_tc si) = t_view t /\ aq_view a = t_view t /\
@@ -230,7 +263,7 @@ Section FiredAgg.
        (exists y, In y l /\ qc_valid c st (qc_of y) = true) ->
        t_view t = s_view s -> N.succ (s_view s) <= s_view (fst (step c st s (t, a1))))%N.
   Proof.
-    intros I Hv K Ag Q2 H.
+    intros I Hv TCV AGV Ag Q2 H.
     pose proof (proj1 (step_fires_iff c st s hist (t, a1) l I Hv) H) as [V [Hid [Lq El]]].
     simpl fst in *.
     destruct (tally_ok_tally c (t_view t) hist) as [F [ND _]].
@@ -247,39 +280,15 @@ Section FiredAgg.
     { subst l. rewrite map_app. simpl. apply NoDup_app_snoc; auto. apply has_id_false_notin; auto. }
     assert (Ll : length l = S (length T)).
     { subst l. rewrite app_length. simpl. lia. }
-    destruct (tc_verifies c c k (t_view t) l K eq_refl eq_refl Fl NDl ltac:(lia) ltac:(lia))
+    destruct (TCV c (t_view t) l eq_refl eq_refl Fl NDl ltac:(lia) ltac:(lia))
       as [tc0 [Ec [Etv Everif]]].
-    (* the AggQC is created whatever the QCs are worth; its verification needs a valid one *)
-    assert (Ea : exists a, create_aggqc c (t_view t) (map to_timeout l) = Ok a /\ aq_view a = t_view t /\
-              forall c' st', c_scheme c' = c_scheme c -> c_replicas c' = c_replicas c ->
-                c_genesis c' <> zero_hash ->
-                (exists y, In y l /\ qc_valid c' st' (qc_of y) = true) ->
-                exists h, verify_aggqc c' st' a = Ok h /\ qc_valid c' st' h = true /\
-                          exists y, In y l /\ h = qc_of y).
-    { assert (Sh : Forall (fun y => t_msig y = Some (QMulti k [sig1_of y]) /\ t_qc y = Some (qc_of y) /\
-                      s_claimed (sig1_of y) = t_id y) l).
-      { eapply Forall_impl; [|exact Fm]. simpl. intros y [M _].
-        destruct (msg_sig_shape c k y K M) as [A [B [C _]]]. auto. }
-      assert (Cl : map s_claimed (map sig1_of l) = map t_id l).
-      { rewrite map_map. apply map_ext_in. intros y Hy. rewrite Forall_forall in Sh. apply (Sh y Hy). }
-      unfold create_aggqc.
-      rewrite (to_sigs_map k l) by (eapply Forall_impl; [|exact Sh]; simpl; tauto).
-      rewrite (scheme_combine_singles _ k _ K) by (rewrite ?Cl, ?map_length; auto; lia).
-      eexists. split; [reflexivity|]. split; [reflexivity|].
-      intros c' st' Es Er Gz Ex.
-      destruct (aggqc_verifies c c' st' k (t_view t) l K Es Er Gz Fm NDl ltac:(lia) ltac:(lia) Ex)
-        as [a' [h [Ca [_ R]]]].
-      unfold create_aggqc in Ca.
-      rewrite (to_sigs_map k l) in Ca by (eapply Forall_impl; [|exact Sh]; simpl; tauto).
-      rewrite (scheme_combine_singles _ k _ K) in Ca by (rewrite ?Cl, ?map_length; auto; lia).
-      inversion Ca. subst a'. exists h. exact R. }
-    destruct Ea as [a [Ca [Eav Averif]]].
+    destruct (AGV (t_view t) l Fm NDl ltac:(lia) ltac:(lia)) as [a [Ca [Eav Averif]]].
     rewrite step_handed in H. simpl fst in H. rewrite V in H.
     rewrite (step_quorum c st s t a1 l V H). cbv zeta.
     unfold remote_timeout_rule. rewrite Ec, Ag. unfold agg_label. rewrite Ca.
     exists (mkSI tc0 (Some a)), a. simpl. repeat split; auto.
     - intros c' Es Er.
-      destruct (tc_verifies c c' k (t_view t) l K Es Er Fl NDl ltac:(lia) ltac:(lia))
+      destruct (TCV c' (t_view t) l Es Er Fl NDl ltac:(lia) ltac:(lia))
         as [tc1 [Ec1 [_ Ev1]]]. rewrite Ec in Ec1. inversion Ec1. subst tc1. exact Ev1.
     - intros Gz Ex Ev.
       destruct (Averif c st eq_refl eq_refl Gz Ex) as [h [Vh _]].
